@@ -146,6 +146,23 @@ CHECKS = {
              note=T_BASE + '; loop shape (`for byte in data`, no break/continue, single state variable) checked structurally on the AST',
              technique='AST-generated verification conditions (bit-vector step lemma + loop invariant), z3',
              design_ref='DESIGN.md §5 C18'),
+ 'C15': dict(category='other',
+             text='Deductive: (room) MessageAny.serialize for 3 header kinds x size profiles (minimal, maximal with anycast and 15-byte '
+                  'amounts, extra currencies) x state-init absent / all 32 field combinations x body reference count 0..4 with a body of '
+                  'SYMBOLIC bit length 0..1023: never raises whenever the flags fit after the header, the produced cell decodes under the '
+                  'schema (info, Maybe(Either StateInit ^StateInit), Either X ^X) to the same message with the Either flags agreeing with '
+                  'the placement, stays within cell capacity, and the library parser returns the same message from it; (parse) '
+                  'MessageAny.deserialize on every valid encoding generated from block.tlb (3 headers x init absent/inline/by reference x '
+                  'body inline/by reference, several shapes); (wrappers) StateInit, TickTock, CurrencyCollection, ExtraCurrencyCollection, '
+                  'the three headers, HashUpdate, AccountStatus, WalletV3/V4/Highload data, NFT item/sale data: deserialize agrees field by '
+                  'field with the schema encoding (fields symbolic) and serialize(deserialize(e)) == e (re-parse equality where whole '
+                  'messages are embedded).  Level other because: header VALUES in the room obligation are restricted to one bit-length '
+                  'class per byte length (sizes are what matters there), wrappers with >2 var-integer fields leave one rotating field fully '
+                  'general per case, dictionaries have at most two entries, and the Cell constructor is used by contract inside serialize.',
+             note=T_BASE + '; Cell(bits, refs) inside Builder.end_cell is replaced by its C01/C07 contract in the room obligation; custom '
+                  'wallet/NFT layouts are transcribed in vf/spec/custom_supplement.tlb',
+             technique='contracts on the real serialize/deserialize functions (postconditions generated from block.tlb), symbolic execution over all paths with symbolic body size, z3 (LIA); callee Cell() by contract',
+             design_ref='DESIGN.md §5 C15'),
  'C16': dict(category='other',
              text='Deductive, per covered TL-B type (59 types: Transaction and the seven description kinds, all phases, in/out message '
                   'descriptors and envelopes incl. v2/metadata/deferred kinds, accounts, shard accounts, block header types, value flows, '
